@@ -180,11 +180,37 @@ def relevant_hyps(p_syms, hyps_syms):
     return sorted(used)
 
 
-def nonzero_from_facts(term, facts, timeout_ms=5000):
-    """z3: facts |- term != 0"""
+def _sign_terms(facts):
+    """terms t for which a fact literally states t != 0 (or t > 0, t < 0)"""
+    out = []
     for f in facts:
-        if z3.is_distinct(f) or (z3.is_not(f) and z3.is_eq(f.arg(0))):
-            pass
+        g = f
+        neg = False
+        if z3.is_not(g):
+            g = g.arg(0)
+            neg = True
+        if z3.is_and(f):
+            out.extend(_sign_terms(f.children()))
+            continue
+        k = g.decl().kind()
+        if (neg and k == z3.Z3_OP_EQ) or (not neg and k == z3.Z3_OP_DISTINCT) or \
+                (not neg and k in (z3.Z3_OP_GT, z3.Z3_OP_LT)):
+            a, b = g.arg(0), g.arg(1)
+            if z3.is_arith(a) and z3.is_arith(b):
+                out.append(a - b)
+    return out
+
+
+def nonzero_from_facts(term, facts, timeout_ms=5000):
+    """z3: facts |- term != 0.  First by matching a fact that literally says so (polynomial
+    identity, no search), then a small query with the sign facts only, then the full query."""
+    cands = _sign_terms(facts)
+    for t in cands:
+        try:
+            if check_identity(term - t, 1000) or check_identity(term + t, 1000):
+                return True
+        except z3.Z3Exception:
+            continue
     sol = z3.Solver()
     sol.set('timeout', timeout_ms)
     for f in facts:
@@ -242,9 +268,7 @@ def prove_eq(p, hyps, order, timeout=30, use_cache=True, want_groebner=True, fac
             out['detail'] = 'cached hint (%s)' % hint.get('how', '')
         except Exception:
             cof = None
-    elif hint is not None and hint.get('status') == 'not-in-ideal':
-        out.update(status='not-in-ideal', detail='cached: ' + hint.get('detail', ''))
-        return fin()
+
     if cof is None:
         try:
             mult, cof, detail, status = _find_cofactors(p_s, hyps_s, gens, want_groebner, timeout)
@@ -253,8 +277,6 @@ def prove_eq(p, hyps, order, timeout=30, use_cache=True, want_groebner=True, fac
         out['detail'] = detail
         if cof is None:
             out['status'] = status
-            if status == 'not-in-ideal':
-                _save_hint(key, {'status': status, 'detail': detail})
             return fin()
         _save_hint(key, {'cofactors': [str(c.as_expr()) for c in cof], 'mult': str(mult.as_expr()),
                          'n_hyps': len(hyps_s), 'how': detail})
@@ -286,10 +308,12 @@ def prove_eq(p, hyps, order, timeout=30, use_cache=True, want_groebner=True, fac
     return fin()
 
 
-def _triangular(P, H, gens):
-    """Wu-Ritt style reduction for hypotheses that form a triangular set w.r.t. creation order:
-    each hypothesis has a main variable (its newest symbol); successive pseudo-division gives
-    M * P = sum c_i h_i + R.  Returns (M, cofactors, R) as sympy expressions / None."""
+def _triangular(P, H, gens, allow_block=False):
+    """Wu-Ritt style reduction.  Each hypothesis has a main variable (its newest symbol).
+    Hypotheses with a main variable of their own form the triangular part and are eliminated by
+    successive pseudo-division (newest first): M * P = sum c_i h_i + R.  Hypotheses that share a
+    main variable (e.g. the generators of SO(3) on an input matrix) form the block, returned for
+    a Groebner step on the remainder.  Returns (M, cofactors, R, block indices) / None."""
     pos = {g: i for i, g in enumerate(gens)}          # gens are newest first
     items = []
     for idx, h in enumerate(H):
@@ -301,17 +325,33 @@ def _triangular(P, H, gens):
         v = min(fs, key=lambda g: pos[g])
         items.append((pos[v], idx, v, h))
     items.sort()
-    seen = set()
+    count = {}
     for pv, idx, v, h in items:
-        if pv in seen:
-            return None                # two hypotheses share a main variable: not triangular
-        seen.add(pv)
+        count[pv] = count.get(pv, 0) + 1
+    block = [idx for pv, idx, v, h in items if count[pv] > 1]
+    if block and not allow_block:
+        return None
+    blockvars = set()
+    changed = True
+    while changed and block:
+        changed = False
+        for idx in block:
+            blockvars |= {g for g, d in zip(H[idx].gens, H[idx].degree_list()) if d > 0}
+        for pv, idx, v, h in items:
+            if idx not in block and v in blockvars:
+                block.append(idx)          # its main variable belongs to the block: part of the block
+                count[pv] = 2
+                changed = True
     R = P.as_expr()
     M = sympy.Integer(1)
     cof = [sympy.Integer(0)] * len(H)
     for pv, idx, v, h in items:
         if R == 0:
             break
+        if count[pv] > 1:
+            continue
+        if v in blockvars:
+            return None            # a definition below the block: not handled
         he = h.as_expr()
         dR = sympy.degree(R, v)
         dh = sympy.degree(he, v)
@@ -329,7 +369,47 @@ def _triangular(P, H, gens):
             M = M * mult
         cof[idx] = cof[idx] + q
         R = sympy.expand(r)
-    return M, cof, R
+    return M, cof, R, block
+
+
+_GB_CACHE = {}
+
+
+def _block_reduce(R, H, block, gens):
+    """R modulo the ideal of the block hypotheses: Groebner basis (grevlex) of the block alone,
+    each basis element lifted to a constant combination of the block generators.
+    -> (cofactor exprs per hypothesis index | None, detail, decided_not_in_ideal)"""
+    Hb = [H[i] for i in block]
+    bvars = []
+    for h in Hb:
+        for g, d in zip(h.gens, h.degree_list()):
+            if d > 0 and g not in bvars:
+                bvars.append(g)
+    key = tuple(sympy.srepr(h.as_expr()) for h in Hb)
+    if key not in _GB_CACHE:
+        G = sympy.groebner([h.as_expr() for h in Hb], *bvars, order='grevlex', domain='QQ')
+        Gp = [sympy.Poly(g, *bvars, domain='QQ') for g in G.exprs]
+        Hbp = [sympy.Poly(h.as_expr(), *bvars, domain='QQ') for h in Hb]
+        lifts = [_lift_linear(g, Hbp, bvars) for g in Gp]
+        _GB_CACHE[key] = (Gp, lifts)
+    Gp, lifts = _GB_CACHE[key]
+    others = [g for g in gens if g not in bvars]
+    # R is a polynomial in the block variables with coefficients in the other symbols
+    dom = sympy.QQ.frac_field(*others) if others else sympy.QQ
+    Rp = sympy.Poly(R, *bvars, domain=dom)
+    qs, r = sympy.reduced(Rp.as_expr(), [g.as_expr() for g in Gp], *bvars, order='grevlex', domain=dom)
+    if sympy.simplify(r) != 0:
+        return None, 'non-zero normal form modulo the Groebner basis of the block', True
+    cof = {}
+    for qk, lam in zip(qs, lifts):
+        if qk == 0:
+            continue
+        if lam is None:
+            return None, 'a Groebner element of the block has no constant lift', False
+        for i, l in zip(block, lam):
+            if l != 0:
+                cof[i] = cof.get(i, 0) + qk * l
+    return cof, 'Groebner basis of the block (grevlex) + linear lift', False
 
 
 def _lift_linear(g, Hn, gens):
@@ -385,14 +465,32 @@ def _find_cofactors(p_s, hyps_s, gens, want_groebner, timeout=30):
     decided_not = False
     try:
         with time_limit(share):
-            tri = _triangular(P, Hn, gens)
-        if tri is None:
-            notes.append('hypotheses are not a triangular set')
-        else:
-            M, cof, R = tri
-            if R == 0:
-                return sympy.Poly(M, *gens, domain='QQ'), place(cof), 'triangular pseudo-division', 'ok'
-            notes.append('triangular pseudo-remainder has %d terms' % len(sympy.Poly(R, *gens).terms()))
+            tri = _triangular(P, Hn, gens, allow_block=True)
+            if tri is None:
+                notes.append('hypotheses are not triangular-plus-block')
+            else:
+                M, cof, R, block = tri
+                if R == 0:
+                    return sympy.Poly(M, *gens, domain='QQ'), place(cof), 'triangular pseudo-division', 'ok'
+                if block:
+                    bc, detail, decided = _block_reduce(R, Hn, block, gens)
+                    if bc is not None:
+                        # cofactors of the block may be rational in the non-block symbols: clear denominators
+                        den = sympy.Integer(1)
+                        for c in bc.values():
+                            den = sympy.lcm(den, sympy.fraction(sympy.together(c))[1])
+                        if den != 1:
+                            cof = [sympy.expand(c * den) if c != 0 else c for c in cof]
+                            M = M * den
+                        for i, c in bc.items():
+                            cof[i] = cof[i] + sympy.cancel(sympy.together(c * den))
+                        return (sympy.Poly(sympy.expand(M), *gens, domain='QQ'), place([sympy.expand(c) for c in cof]),
+                                'triangular pseudo-division + ' + detail, 'ok')
+                    notes.append(detail)
+                    if decided:
+                        return None, None, '; '.join(notes), 'not-in-ideal'
+                else:
+                    notes.append('triangular pseudo-remainder has %d terms' % len(sympy.Poly(R, *gens).terms()))
     except Timeout:
         notes.append('triangular reduction timed out')
     try:
